@@ -95,7 +95,13 @@ PROPS = {
                 aspects=['hist:removals'], monitors=['C01'],
                 theorems=['Esc.P.C01_scan_partial', 'Esc.P.C01_history_partial', 'Esc.P.C01_unreadable', 'Esc.P.C01_untainted', 'Esc.P.C01_cordoned',
                           'Esc.P.C01_full_fails']),
-    'C02': dict(level='proof', module='EscProofs.P.C02', streams=hist('C02', focus='cooldown'),
+    'C02': dict(level='proof', module='EscProofs.P.C02',
+                # the last stream of each tier lets the credentials refresh fail (provider rebuilt inside a cool-down): 5 s of real sleep each
+                streams=dict(quick=[('scenario', ['-dir', '@ROOT/corpus/C02']), ('hist', ['-n', 400, '-scans', 10, '-focus', 'cooldown']),
+                                    ('hist', ['-n', 4, '-scans', 5, '-focus', 'cooldown', '-slow'])],
+                             thorough=[('scenario', ['-dir', '@ROOT/corpus/C02']), ('hist', ['-n', 20000, '-scans', 12, '-focus', 'cooldown']),
+                                       ('hist', ['-n', 60, '-scans', 6, '-focus', 'cooldown', '-slow'])],
+                             search=[('hist', ['-n', 1500, '-scans', 12, '-focus', 'cooldown']), ('hist', ['-n', 12, '-scans', 6, '-focus', 'cooldown', '-slow'])]),
                 aspects=['hist:writes', 'hist:state'], monitors=['C02'],
                 theorems=['Esc.P.C02_quiet_scan', 'Esc.P.C02_history_quiet', 'Esc.P.C02_release', 'Esc.P.C02_release_scan', 'Esc.P.C02_armed',
                           'Esc.P.increaseSize_none', 'Esc.P.runOnce_quiet'],
